@@ -5,11 +5,13 @@ pipeline of every intermediate stream vs the Lean model.  Oracle: plain-Python b
 after all later steps and twice in a row."""
 import copy
 import csv
+import hashlib
 import itertools
 import os
 import shutil
 import tempfile
 
+import seqnest
 import seqtab
 from seqtab import OPS, hexs, item_text
 
@@ -58,7 +60,7 @@ def make_stream(fns, kind, names, rows, tmpdir):
         seq[n] = BaseType(n)
     if kind == "it":
         return IterData([tuple(r) for r in rows], copy.copy(seq))
-    path = os.path.join(tmpdir, "t%d.csv" % (abs(hash((tuple(names), tuple(rows)))) % 10 ** 12))
+    path = os.path.join(tmpdir, "t%s.csv" % hashlib.md5(repr((tuple(names), tuple(rows))).encode()).hexdigest()[:16])
     if not os.path.exists(path):
         with open(path, "w", newline="") as f:
             w = csv.writer(f, quoting=csv.QUOTE_NONNUMERIC)
@@ -302,10 +304,124 @@ def check_nested(ctx, fns):
         ctx.count(("nested", repr(ops)), True, tag="nested:len%d" % len(ops), sample=case)
 
 
+# ---- one nested level: random programs, model tie and by-name oracle ------------------------------------------
+def make_nested(fns, hdr, rows):
+    IterData, CSVData, CE, BaseType, SequenceType = fns
+    s = SequenceType(SID)
+    for n, k in hdr:
+        if isinstance(k, list):
+            c = s[n] = SequenceType(n)
+            for x, _ in k:
+                c[x] = BaseType(x)
+        else:
+            s[n] = BaseType(n)
+    return IterData([tuple(r) for r in rows], copy.copy(s))
+
+
+def nested_listing(fns, d):
+    IterData = fns[0]
+
+    def conv(x):
+        if isinstance(x, IterData):
+            return [conv(r) for r in x]
+        if isinstance(x, tuple):
+            return tuple(conv(v) for v in x)
+        if isinstance(x, list):
+            return [conv(v) for v in x]
+        return x
+    try:
+        items = [conv(r) for r in d]
+        return "[" + " ".join(seqnest.item_text(x) for x in items) + "]"
+    except Exception as e:
+        return "iter:" + type(e).__name__
+
+
+def run_nested(fns, hdr, rows, ops):
+    CE = fns[2]
+    cur = make_nested(fns, hdr, rows)
+    parts, seen, err = [], [], None
+    for k in list(ops) + [None]:
+        text = nested_listing(fns, cur)
+        pipe = pipe_text(cur)
+        parts.append(text + "@" + pipe)
+        seen.append((cur, text, pipe))
+        if k is None:
+            break
+        try:
+            cur = cur[key_py(k, CE)]
+        except Exception as e:
+            err = type(e).__name__
+            parts.append("getitem:" + err)
+            break
+    return " | ".join(parts), seen, err
+
+
+def check_nested_program(ctx, fns, hdr, rows, ops, resolved, cases, where):
+    line = "nest-run %s %s %s (%s)" % (SID, seqnest.hdr_sexp(hdr), seqnest.rows_sexp(rows), " ".join(key_sexp(k) for k in ops))
+    text, seen, err = run_nested(fns, hdr, rows, ops)
+    exp, inner_cond = seqnest.reference(hdr, rows, ops, resolved)
+    case = {"nested": "program", "hdr": [[n, k if isinstance(k, str) else [list(x) for x in k]] for n, k in hdr],
+            "rows": [[v if not isinstance(v, list) else [list(ir) for ir in v] for v in r] for r in rows],
+            "ops": [list(k) for k in ops], "resolved": [list(r) if r else None for r in resolved],
+            "finding_class": inner_cond is not None}
+    cases.append((line, text, case))
+    size = len(ops) * 100 + len(rows) * 10 + len(hdr)
+    for n, (stream, first, pipe) in enumerate(seen):
+        cls = seqnest.FINDING if inner_cond is not None and n > inner_cond else None
+        if n < len(exp):
+            want = "[" + " ".join(seqnest.item_text(x) for x in exp[n]) + "]"
+            if first != want:
+                ctx.oracle_fail("nested table: stream after %d step(s) does not list the reference rows" % n,
+                                dict(case, step=n), first, want, cls=cls, size=size + n)
+        for again in (1, 2):
+            t2 = nested_listing(fns, stream)
+            if t2 != first or pipe_text(stream) != pipe:
+                ctx.oracle_fail("nested table: stream %d changed after later steps / second iteration" % n,
+                                dict(case, step=n), t2 + "@" + pipe_text(stream), first + "@" + pipe, size=size + n)
+                break
+    valid = len(exp) == len(ops) + 1
+    if valid and err is not None:
+        ctx.oracle_fail("nested table: a step of a valid program raised " + err, case, text, "no exception",
+                        cls=seqnest.FINDING if inner_cond is not None else None, size=size)
+    ctx.count(("nested", seqnest.hdr_sexp(hdr), seqnest.rows_sexp(rows), tuple(map(repr, ops))), len(ops) >= 2 and valid,
+              tag="%s:nested:len%d:%s%s" % (where, len(ops), "valid" if valid else "rejected",
+                                          ":inner-cond" if inner_cond is not None else ""),
+              sample=dict(case, impl=text[:200]))
+
+
+W_HDR = [("i", "i"), ("n", [("x", "i"), ("y", "t")]), ("t", "t")]
+W_ROWS = [(1, [(10, "a"), (11, "b")], "p"), (2, [], "q"), (3, [(30, "c")], "r")]
+W_OPS = [("str", "n"), ("cond", "s.n.x", ">", "10")]
+W_RES = [None, ("inner", "n", "x", ">", ("const", 10))]
+
+
+def witness_inner_cond(fns):
+    """D["n"][CE("s.n.x>10")] must list [[(11,b)], [], [(30,c)]] (what D[CE("s.n.x>10")]["n"] lists)"""
+    text, seen, err = run_nested(fns, W_HDR, W_ROWS, W_OPS)
+    exp, _ = seqnest.reference(W_HDR, W_ROWS, W_OPS, W_RES)
+    want = "[" + " ".join(seqnest.item_text(x) for x in exp[-1]) + "]"
+    return err is not None or seen[-1][1] != want
+
+
+def explore_nested(ctx, fns, tier, search=False):
+    cases = []
+    rng = ctx.rng("nested-programs")
+    n = 700 if tier == "quick" else 15000
+    if search:
+        n = 10000
+    for _ in range(n):
+        hdr, rows = seqnest.gen_table(rng)
+        ops, res = seqnest.gen_program(rng, SID, hdr)
+        check_nested_program(ctx, fns, hdr, rows, ops, res, cases, "random")
+    ctx.correspond("IterData programs on tables with one nested level (random, <= 6 steps)", cases,
+                   known_class=lambda m: seqnest.FINDING if m.get("finding_class") else None)
+
+
 def explore(ctx, fns, tier, search=False):
     tmpdir = tempfile.mkdtemp(prefix="c17-")
     try:
         check_nested(ctx, fns)
+        explore_nested(ctx, fns, tier, search)
         cases = []
         # (a) exhaustive: every chain of length <= 3 over the key alphabet, 4x3 table, both constructors
         for kind in ("it", "csv"):
@@ -348,12 +464,13 @@ def run(ctx):
                 "(constructor, table, program)")
     ctx.assumptions = ["Python list/itertools.islice/csv.reader semantics; cell comparison and ast.literal_eval are "
                        "parameters shared by model and reference (driver instances compared on every generated literal)",
-                       "C17 theorems cover flat tables; nested sequence levels and Python object aliasing (copied lists, "
+                       "C17 theorems cover flat tables and one nested sequence level (a filter after a child selection into the nested sequence is an open finding); Python object aliasing (copied lists, "
                        "copied template) are exercised by the harness only (see design_notes/C17.md)"]
     ctx.proof_phase()
     fns = load()
     explore(ctx, fns, ctx.tier)
-    return ctx.finish(search=lambda c: explore(c, fns, "thorough", search=True))
+    return ctx.finish(search=lambda c: explore(c, fns, "thorough", search=True),
+                      witnesses={seqnest.FINDING: lambda: witness_inner_cond(fns)})
 
 
 def replay(payload):
@@ -363,6 +480,23 @@ def replay(payload):
         print("nothing to replay: %s" % payload.get("no_longer_checks"))
         return False
     c = f["case"]
+    if c.get("nested") == "program":
+        class RecP:
+            fail = 0
+
+            def oracle_fail(self, what, case, observed, expected, cls=None, size=None):
+                if cls is None:
+                    print(what, "observed", observed, "expected", expected)
+                    self.fail += 1
+
+            def count(self, *a, **k):
+                pass
+        rec = RecP()
+        hdr = [(n, k if isinstance(k, str) else [tuple(x) for x in k]) for n, k in c["hdr"]]
+        rows = [tuple(v if not isinstance(v, list) else [tuple(ir) for ir in v] for v in r) for r in c["rows"]]
+        res = [None if r is None else tuple(tuple(x) if isinstance(x, list) else x for x in r) for r in c["resolved"]]
+        check_nested_program(rec, fns, hdr, rows, [tuple(k) for k in c["ops"]], res, [], "replay")
+        return rec.fail == 0
     if c.get("nested"):
         class Rec:
             fail = 0
